@@ -6,7 +6,7 @@ Property theorems about the heap-of-scopes model (Core/Scope.lean, Core/Eval.lea
 is `Scope::set_variable` as it stands in rsass/src/variablescope.rs.
 -/
 import RsassModel.Core.LemmasScope
-import RsassModel.Core.Eval
+import RsassModel.Core.LemmasEval
 namespace C16
 open Core
 
@@ -197,10 +197,6 @@ theorem asis_refuted_toplevel_flow (k : Kind) (hk : k = .forIter ∨ k = .whileL
   rcases hk with rfl | rfl <;> decide
 
 /-! ## Loop variables and parameters are local -/
-
-theorem exec_nil (fuel : Nat) (cfg : Cfg) (fn : Bool) (s : Nat) (st : St) :
-    exec (fuel + 1) cfg fn s [] st = .ok (none, st) := by
-  simp [exec]
 
 /-- **loop_vars_local** (`@for`, any flags; `@each`/`@for` in the spec configuration use
 the same `loopFresh`/fresh-scope binding): the loop machinery itself — binding the loop
